@@ -22,6 +22,7 @@ type boardModel struct {
 	lost, epTarget, epCapture, rookMove, safeSquares      *ssa.Function
 
 	moveT    *types.Named
+	resultT  types.Type // the game-result type: the type of Board.Result()
 	moveIdx  map[string]int // field name -> index
 	kinds    map[string]int64
 	kindName map[int64]string
@@ -53,6 +54,9 @@ func newBoardModel(c *Ctx, rule string) *boardModel {
 	b.epCapture = c.fn(rule, "pkg/board", "Move", "EnPassantCapture")
 	b.rookMove = c.fn(rule, "pkg/board", "Move", "CastlingRookMove")
 	b.moveT = c.P.NamedType("pkg/board", "Move")
+	if rf := c.find("pkg/board", "Board", "Result"); rf != nil && rf.Signature.Results().Len() == 1 {
+		b.resultT = rf.Signature.Results().At(0).Type()
+	}
 	for _, f := range []*ssa.Function{b.posMove, b.square, b.xor, b.isAttacked, b.isChecked, b.opponent, b.lost, b.epTarget, b.epCapture, b.rookMove} {
 		if f == nil {
 			return nil
